@@ -178,7 +178,7 @@ theorem full_flushCur {p : WalParams} {crc : Bytes → Nat} {sync : Nat} {c : CS
   exact ⟨⟨L0, last, h1, i1, t1, h4, h5⟩, b1⟩
 
 theorem full_reopenEng {p : WalParams} {crc : Bytes → Nat} {sync : Nat} {c : CSt} {n : Nat}
-    (h : Full p crc sync c n) (hb : c.buffered = 0) :
+    (h : Full p crc sync c n) (hb : c.buffered = 0) (hps : syncedOf c.events = c.files.map (·.flushed)) :
     Full p crc sync { c with eng := Engine.reopen c.eng, buffered := 0, cap := 65536, batchBytes := 0 } n := by
   obtain ⟨L0, last, h1, h2, h3, h4, h5⟩ := h
   have hmx : (Engine.recoverTables c.eng.cfg c.eng.wal.flatten).2 = c.eng.walNext - 1 := by
@@ -191,7 +191,7 @@ theorem full_reopenEng {p : WalParams} {crc : Bytes → Nat} {sync : Nat} {c : C
   refine ⟨L0, last, h1, ?_, ?_, ?_, ?_⟩
   · show Inv p crc sync _ _ (Engine.reopen c.eng).walNext
     rw [hwn]
-    exact h2.setLast h3 (fun _ => hb) rfl rfl
+    exact h2.setLast h3 (fun _ => hb) (fun _ => hps) rfl rfl
       (by show _ ≤ (Engine.reopen c.eng).walNext + 1; rw [hwn]; omega) hls rfl rfl
   · obtain ⟨fl, s1, s2, s3⟩ := h3
     exact ⟨fl, s1, by rw [hb] at s2; exact s2, Nat.zero_le _⟩
@@ -210,7 +210,9 @@ theorem full_reopenSites {p : WalParams} {crc : Bytes → Nat} {sync : Nat} {c :
   refine Full.at ?_ _
   obtain ⟨f1, b1⟩ := full_flushCur h
   have f2 := ((f1.at "wal.close.flushed").at "wal.close.synced").at "wal.close.closed"
-  exact full_reopenEng f2 b1
+  refine full_reopenEng f2 b1 ?_
+  rw [syncedOf_at, if_neg (by decide), syncedOf_at, if_pos (by decide)]
+  rfl
 
 /-! ### the window between "bytes handed to the writer" and "logical log updated" -/
 
@@ -236,15 +238,21 @@ theorem writeOne_eq (p : WalParams) (crc : Bytes → Nat) (c : CSt) (isDel : Boo
 theorem mid_of_write {p : WalParams} {crc : Bytes → Nat} {sync : Nat} {c : CSt} {n : Nat} (hp : p.WF)
     (h : Full p crc sync c n) (le : LogEntry) (hseq : le.seq = c.eng.walNext) (hok : EntryOK p (toWal le)) :
     Mid p crc sync (wPre p crc c le) n [le] ∧ (sync = 2 → (wPre p crc c le).buffered = 0) ∧
-    (wPre p crc c le).eng = c.eng := by
+    (wPre p crc c le).eng = c.eng ∧
+    (sync = 2 → syncedOf (wPre p crc c le).events = (wPre p crc c le).files.map (·.flushed)) := by
   obtain ⟨L0, last, h1, h2, h3, h4, h5⟩ := h
   obtain ⟨a1, a2, a3⟩ := Inv.write hp (h2.at "wal.append.pre") (h3.at "wal.append.pre") le hseq hok
-  obtain ⟨b1, b2, b3, b4⟩ := inv_maybeSync (a1.at "wal.append.buffered") (a2.at "wal.append.buffered")
+  obtain ⟨b1, b2, b3, b4, b5⟩ := inv_maybeSync (a1.at "wal.append.buffered") (a2.at "wal.append.buffered")
+  have hps : sync = 2 → syncedOf (wPre p crc c le).events = (wPre p crc c le).files.map (·.flushed) := by
+    intro h2'
+    show syncedOf ((maybeSync _).at "wal.append.done").events = _
+    rw [syncedOf_at, if_neg (by decide)]
+    exact b5 h2'
   have heng : (wPre p crc c le).eng = c.eng := by
     show (maybeSync _).eng = _
     rw [b4]
     exact a3
-  refine ⟨?_, b3, heng⟩
+  refine ⟨?_, b3, heng, hps⟩
   unfold Mid
   rw [heng]
   exact ⟨L0, last, h1, (b1.at "wal.append.done").congr rfl rfl (by rw [heng]; exact Nat.le_refl _) rfl rfl rfl,
@@ -273,11 +281,12 @@ theorem mid_commit {p : WalParams} {crc : Bytes → Nat} {sync : Nat} {c : CSt} 
     omega
 
 theorem full_setLast {p : WalParams} {crc : Bytes → Nat} {sync : Nat} {c : CSt} {n : Nat}
-    (h : Full p crc sync c n) (hb : sync = 2 → c.buffered = 0) (sq : Nat) (hsq : sq + 1 = c.eng.walNext) (P : Pool) :
+    (h : Full p crc sync c n) (hb : sync = 2 → c.buffered = 0)
+    (hps : sync = 2 → syncedOf c.events = c.files.map (·.flushed)) (sq : Nat) (hsq : sq + 1 = c.eng.walNext) (P : Pool) :
     Full p crc sync { c with eng := { c.eng with pool := P, lastSeq := sq } } n := by
   obtain ⟨L0, last, h1, h2, h3, h4, h5⟩ := h
   refine ⟨L0, last, h1, ?_, h3.congr rfl rfl (Nat.le_refl _), h4, h5⟩
-  exact h2.setLast h3 hb rfl rfl (Nat.le_succ _) (by show sq = c.eng.walNext - 1; omega) rfl rfl
+  exact h2.setLast h3 hb hps rfl rfl (Nat.le_succ _) (by show sq = c.eng.walNext - 1; omega) rfl rfl
 
 theorem full_writeOne {p : WalParams} {crc : Bytes → Nat} {sync : Nat} {c : CSt} {n : Nat} (hp : p.WF)
     (h : Full p crc sync c n) (isDel : Bool) (k v : Bytes) (hk : k.length < 2 ^ 32) (hv : v.length < 2 ^ 32)
@@ -294,7 +303,7 @@ theorem full_writeOne {p : WalParams} {crc : Bytes → Nat} {sync : Nat} {c : CS
     · cases isDel
       · intro _; exact hv
       · intro hne; exact absurd (by simp [toWal, mkLe, hD]) hne
-  obtain ⟨m1, m2, m3⟩ := mid_of_write hp h (mkLe isDel c.eng.walNext k v) rfl hok
+  obtain ⟨m1, m2, m3, m4⟩ := mid_of_write hp h (mkLe isDel c.eng.walNext k v) rfl hok
   rw [writeOne_eq]
   apply full_opTail
   unfold wMem
@@ -308,6 +317,10 @@ theorem full_writeOne {p : WalParams} {crc : Bytes → Nat} {sync : Nat} {c : CS
       rw [he, m3]; rfl
     · rw [m3]
   · exact m2
+  · intro h2
+    unfold wLog
+    rw [syncedOf_at, if_neg (by cases isDel <;> decide)]
+    exact m4 h2
   · exact hwl.symm
 
 
@@ -390,19 +403,25 @@ theorem mid_of_batch {p : WalParams} {crc : Bytes → Nat} {sync : Nat} {c : CSt
     (h : Full p crc sync c n) (les : List LogEntry) (hseq : ∀ e ∈ les, e.seq = c.eng.walNext)
     (hok : ∀ e ∈ les, EntryOK p (toWal e)) (hfit : ∀ e ∈ les, payloadSize p (toWal e) ≤ p.maxRecord) :
     Mid p crc sync (tPre p crc c les) n les ∧ (sync = 2 → (tPre p crc c les).buffered = 0) ∧
-    (tPre p crc c les).eng = c.eng := by
+    (tPre p crc c les).eng = c.eng ∧
+    (sync = 2 → syncedOf (tPre p crc c les).events = (tPre p crc c les).files.map (·.flushed)) := by
   obtain ⟨f1, r1, e1⟩ := full_preFlush (h.at "wal.batch.pre") (txTotal p les)
   have e1' : (preFlush (c.at "wal.batch.pre") (txTotal p les)).eng = c.eng := e1
   obtain ⟨L0, last, g1, g2, g3, g4, g5⟩ := f1
   obtain ⟨a1, a2, a3⟩ := Inv.batch hp g2 g3 les (by rw [e1']; exact hseq) hok hfit
     (by rw [← txTotal_eq p hp crc les hfit]; exact r1)
-  obtain ⟨b1, b2, b3, b4⟩ := inv_maybeSync (a1.at "wal.batch.buffered") (a2.at "wal.batch.buffered")
+  obtain ⟨b1, b2, b3, b4, b5⟩ := inv_maybeSync (a1.at "wal.batch.buffered") (a2.at "wal.batch.buffered")
+  have hps : sync = 2 → syncedOf (tPre p crc c les).events = (tPre p crc c les).files.map (·.flushed) := by
+    intro h2'
+    show syncedOf ((maybeSync _).at "wal.batch.done").events = _
+    rw [syncedOf_at, if_neg (by decide)]
+    exact b5 h2'
   have heng : (tPre p crc c les).eng = c.eng := by
     show (maybeSync _).eng = _
     rw [b4]
     show CSt.eng (List.foldl _ _ les) = _
     rw [a3, e1']
-  refine ⟨?_, b3, heng⟩
+  refine ⟨?_, b3, heng, hps⟩
   unfold Mid
   rw [heng]
   rw [e1'] at g1 g4 g5
@@ -413,16 +432,20 @@ theorem mid_of_batch {p : WalParams} {crc : Bytes → Nat} {sync : Nat} {c : CSt
 
 theorem full_memFold {p : WalParams} {crc : Bytes → Nat} {sync : Nat} {n : Nat} (sq : Nat) :
     ∀ (bo : List (Bool × Bytes × Bytes)) (c : CSt), Full p crc sync c n → (sync = 2 → c.buffered = 0) →
+      (sync = 2 → syncedOf c.events = c.files.map (·.flushed)) →
       sq + 1 = c.eng.walNext → Full p crc sync (memFold bo sq c) n := by
   intro bo
   induction bo with
-  | nil => intro c h _ _; exact h
+  | nil => intro c h _ _ _; exact h
   | cons t bo ih =>
-    intro c h hb hs
+    intro c h hb hps hs
     obtain ⟨d, k, v⟩ := t
     unfold memFold
     rw [List.foldl_cons]
-    exact ih _ (Full.at (full_setLast h hb sq hs _) _) hb hs
+    refine ih _ (Full.at (full_setLast h hb hps sq hs _) _) hb ?_ hs
+    intro h2
+    rw [syncedOf_at, if_neg (by decide)]
+    exact hps h2
 
 theorem mem_bufferOps (ops : List (Bool × Bytes × Bytes)) (t : Bool × Bytes × Bytes) (h : t ∈ bufferOps ops) :
     t ∈ ops := by
@@ -482,7 +505,7 @@ theorem full_txCommit {p : WalParams} {crc : Bytes → Nat} {sync : Nat} {c : CS
       apply hemp
       simp only [txLes, List.map_eq_nil_iff] at hnil
       rw [hnil]; rfl
-    obtain ⟨m1, m2, m3⟩ := mid_of_batch hp h0 (txLes (bufferOps ops) c.eng.walNext) hseq hok hfit
+    obtain ⟨m1, m2, m3, m4⟩ := mid_of_batch hp h0 (txLes (bufferOps ops) c.eng.walNext) hseq hok hfit
     apply full_opTail
     apply full_memFold
     · apply mid_commit m1 hne
@@ -490,6 +513,10 @@ theorem full_txCommit {p : WalParams} {crc : Bytes → Nat} {sync : Nat} {c : CS
         rw [hseq e he, m3]; rfl
       · rw [m3]; rfl
     · exact m2
+    · intro h2
+      unfold wLog
+      rw [syncedOf_at, if_neg (by decide)]
+      exact m4 h2
     · rfl
 
 end Kevo.Proofs.CrashAux
